@@ -54,6 +54,44 @@ def _field_value(s: str):
     return f
 
 
+def _library_pool_start_method() -> str:
+    """How the library's own pool class (panoptica.utils.NonDaemonicPool) starts its workers."""
+    import multiprocessing
+
+    pp = sys.modules.get("panoptica.utils.parallel_processing")
+    cls = getattr(pp, "NonDaemonicPool", None)
+    proc = getattr(cls, "Process", None)
+    sm = getattr(proc, "_start_method", None)
+    if sm:
+        return sm
+    try:
+        import inspect
+
+        ctx = inspect.signature(cls.__init__).parameters.get("context")
+        if ctx is not None and ctx.default not in (None, inspect.Parameter.empty):
+            return ctx.default.get_start_method()
+    except (TypeError, ValueError, AttributeError):
+        pass
+    for name in ("_WORKER_CONTEXT", "_CONTEXT", "_ctx", "ctx"):
+        c = getattr(pp, name, None)
+        if c is not None and hasattr(c, "get_start_method"):
+            return c.get_start_method()
+    return multiprocessing.get_start_method(allow_none=True) or "fork"
+
+
+def _reimport_module_level_locks():
+    from .seams import SimLock
+
+    for name, mod in list(sys.modules.items()):
+        if mod is None or not (name == "panoptica" or name.startswith("panoptica.")):
+            continue
+        for attr, val in list(vars(mod).items()):
+            if isinstance(val, SimLock):
+                fresh = type(val)()
+                fresh.name = attr
+                setattr(mod, attr, fresh)
+
+
 def struct_unhex(h: str) -> float:
     import struct
 
@@ -374,7 +412,7 @@ class Exec:
             for i, ops in enumerate(sess["tasks"]):
                 # "mixed": the same aggregator is used from threads and from forked workers at once
                 wmode = mode if mode != "mixed" else ("threads", "procs", "forked")[(plan["seed"] + i) % 3]
-                if wmode in ("procs", "forked"):
+                if wmode in ("procs", "forked", "libpool"):
                     workers.append(self._spawn_remote(s, group, f"{group.name}.w{i}", sess, aggs, ops, wmode, lazy))
                 else:
                     workers.append(s.spawn(f"{group.name}.w{i}", group, self._worker, sess, aggs, ops, wmode))
@@ -439,6 +477,11 @@ class Exec:
                 self.remote = rs
                 exc = None
                 try:
+                    if wmode == "libpool" and _library_pool_start_method() == "spawn":
+                        # a spawned worker is a fresh interpreter that imports the package again:
+                        # its module-level synchronisation primitives are new, private objects
+                        _reimport_module_level_locks()
+                        rs.send(("note", "worker_spawned_fresh_locks", 1))
                     rs.wait_go()
                     self._worker(sess, aggs, ops, wmode)
                 except SimInterrupt:
@@ -576,7 +619,7 @@ class Exec:
         t = s.current
         plan = self.plan
         mode = wmode or plan["knobs"].get("mode")
-        procs = mode == "procs"
+        procs = mode in ("procs", "libpool")  # the callable travels pickled, once per call
         t.ctx["proc"] = 0 if mode == "threads" else t.tid + 1
         if mode == "forked":
             # a long-lived worker forked after the aggregators were built: it inherits its own
